@@ -1337,6 +1337,18 @@ pub const SPLICES: &[&str] = &[
     " name=zz",
     " style=\"color:#f00\"",
     " class=\"a b\"",
+    // sequences whose string width differs from the sum of their character widths
+    "\u{263a}\u{fe0f}",
+    "\u{1F468}\u{200D}\u{1F469}\u{200D}\u{1F467}",
+    "\u{644}\u{627}",
+    "\u{1F1E6}\u{1F1E7}",
+    "\u{1100}\u{1161}\u{11A8}",
+    "\u{A4FC}\u{A4FD}",
+    "\u{2764}\u{FE0E}",
+    "a\u{FE0F}",
+    "\u{17D2}\u{1780}",
+    "<pre>\u{644}\u{627} \u{263a}\u{fe0f}</pre>",
+    "<s>\u{644}\u{627}</s>",
 ];
 
 pub fn mutations() -> BoxedStrategy<Vec<Mutation>> {
